@@ -39,6 +39,7 @@ NewLink == [ech |-> -1, pch |-> -1, eh |-> -1, ph |-> -1, name |-> "", eutSender
             \* receiver role (EUT receives)
             dcR |-> 0, dcGot |-> 0, lcR |-> 0, limitR |-> 0, limitMax |-> 0, idcP |-> 0, accepted |-> 0, broken |-> FALSE, aborts |-> 0, cfgActive |-> FALSE, creditMode |-> -2, autoAcc |-> FALSE, expectLc |-> -1, held |-> 0, pInDel |-> FALSE,
             inq |-> <<>>,          \* incoming deliveries not yet handed to the application
+            got |-> <<>>,          \* deliveries handed to the application: [did, m, app (state chosen by the application or "none"), presettled]
             \* settlement
             sendq |-> <<>>,        \* sends of the application on this link: [call, m, did, presettled, outcome, settledByPeer]
             oblEcho |-> {}]        \* deliveries for which the EUT (sender, rcv-settle-mode second) owes a settling disposition
@@ -71,6 +72,7 @@ OpenShouldSucceed(s) == s.phdr = "amqp" /\ s.popen /\ ~s.illegal
 \* ---------------------------------------------------------------- EUT frames
 SetS(s, i, x) == [s EXCEPT !.ss[i] = x]
 SetL(s, k, y) == [s EXCEPT !.ls[k] = y]
+Illegal(s) == [s EXCEPT !.illegal = TRUE]
 
 \* clauses that apply to every frame the EUT writes
 EPre(s, r, l) ==
@@ -148,8 +150,10 @@ H_ETransfer(s, r, l) ==
       devOK == x.pBegun /\ (unit => x.devWin > 0)
       x2 == [x EXCEPT !.framesOut = @ + 1, !.delsOut = IF unit THEN @ + 1 ELSE @, !.lastDid = IF first /\ f.did >= 0 THEN f.did ELSE @,
                       !.devWin = IF unit THEN Max(0, @ - 1) ELSE @]
+      qi == IF first THEN FirstIdx(y.sendq, LAMBDA q : q.m = r.pl.m /\ q.did = -1) ELSE 0
       y2 == [y EXCEPT !.inDel = f.more, !.curDid = IF first THEN f.did ELSE @, !.dcS = IF first THEN @ + 1 ELSE @,
-                      !.delsDone = IF f.more THEN @ ELSE @ + 1]
+                      !.delsDone = IF f.more THEN @ ELSE @ + 1,
+                      !.sendq = IF qi > 0 THEN [@ EXCEPT ![qi].did = f.did, ![qi].presettled = (f.settled = "t")] ELSE @]
   IN R(SetL(SetS(s, i, x2), k, y2),
          Chk("C07_WindowSafety", strictOK, l, IF devOK THEN "dev_ok" ELSE "dev_bad")
        + Chk("C11_DeliveryIdIncreasing", ~first \/ (f.did >= 0 /\ f.did > x.lastDid), l, "")
@@ -182,6 +186,59 @@ H_EFlow(s, r, l) ==
             + Chk("C09_FlowCredit", y.expectLc < 0 \/ f.lc = y.expectLc, l, "")
             + Chk("C09_FlowCreditAuto", ~y.cfgActive \/ y.creditMode < 0 \/ y.expectLc >= 0 \/ f.drain \/ f.lc <= y.creditMode, l, ""))
 
+\* a delivery that may be handed to the application: complete, not aborted, not contradictory
+Eligible(e) == e.complete /\ ~e.aborted /\ ~e.contra
+\* ---------------------------------------------------------------- settlement (C02)
+Terminal(st) == st.k \in {"accepted", "rejected", "released", "modified"} \/ (st.k = "txn" /\ st.cond \in {"accepted", "rejected", "released", "modified"})
+OutcomeOf(st) == IF st.k = "txn" THEN st.cond ELSE st.k
+InRange(d, f) == d >= f.first /\ d <= (IF f.last >= 0 THEN f.last ELSE f.first)
+
+\* the peer (receiver) reports on deliveries the EUT sent
+H_PDisposition(s, r, l) ==
+  LET f == r.f i == SessByP(s, r.ch) IN
+  IF i = 0 \/ s.ss[i].pEnded THEN R(Illegal(s), 0) ELSE
+  IF f.role = "r"
+  THEN LET ech == s.ss[i].ech
+           upd(y) == IF ~(y.ech = ech /\ y.eutSender) THEN y ELSE
+                     [y EXCEPT !.sendq = [n \in DOMAIN y.sendq |->
+                                            IF y.sendq[n].did >= 0 /\ InRange(y.sendq[n].did, f) /\ ~y.sendq[n].presettled /\ y.sendq[n].outcome = "none" /\ Terminal(f.state)
+                                            THEN [y.sendq[n] EXCEPT !.outcome = OutcomeOf(f.state), !.done = f.settled]
+                                            ELSE IF y.sendq[n].did >= 0 /\ InRange(y.sendq[n].did, f) /\ f.settled THEN [y.sendq[n] EXCEPT !.done = TRUE]
+                                            ELSE y.sendq[n]],
+                               \* a settling echo is owed only for deliveries that are still unsettled
+                               !.oblEcho = IF y.rcv = 1 /\ ~f.settled /\ Terminal(f.state)
+                                           THEN @ \cup {y.sendq[n].did : n \in {n \in DOMAIN y.sendq : y.sendq[n].did >= 0 /\ InRange(y.sendq[n].did, f) /\ ~y.sendq[n].presettled /\ ~y.sendq[n].done}}
+                                           ELSE {d \in @ : ~(f.settled /\ InRange(d, f))}]
+       IN R([s EXCEPT !.ls = [k \in DOMAIN s.ls |-> upd(s.ls[k])]], 0)
+  ELSE R(s, 0)
+
+\* the EUT's own dispositions
+H_EDisposition(s, r, l) ==
+  LET f == r.f i == SessByE(s, r.ch) IN
+  IF i = 0 \/ ~LiveE(s.ss[i]) THEN R(s, Fail("C13_NothingAfterEnd", l, "disposition")) ELSE
+  IF f.role = "s"
+  THEN \* settling echo of the EUT as sender
+       LET mine == UNION {{s.ls[k].sendq[n].did : n \in DOMAIN s.ls[k].sendq} : k \in {k \in DOMAIN s.ls : s.ls[k].ech = r.ch /\ s.ls[k].eutSender}}
+           hi == IF f.last >= 0 THEN f.last ELSE f.first
+       IN R([s EXCEPT !.ls = [k \in DOMAIN s.ls |-> IF s.ls[k].ech = r.ch /\ s.ls[k].eutSender
+                                                    THEN [s.ls[k] EXCEPT !.oblEcho = {d \in @ : ~InRange(d, f)},
+                                                                         !.sendq = [n \in DOMAIN @ |-> IF @[n].did >= 0 /\ InRange(@[n].did, f) THEN [@[n] EXCEPT !.done = TRUE] ELSE @[n]]] ELSE s.ls[k]]],
+              Chk("C02_NoEchoForUnknown", hi - f.first <= 64 /\ \A d \in f.first..hi : d \in mine, l, "")
+            + Chk("C02_EchoSettles", f.settled, l, ""))
+  ELSE \* disposition of the EUT as receiver: every delivery in the range must have been disposed that way by the application
+       LET pch == s.ss[i].pch
+           hi == IF f.last >= 0 THEN f.last ELSE f.first
+           rl == {k \in DOMAIN s.ls : s.ls[k].pch = pch /\ ~s.ls[k].eutSender}
+           find(d) == {<<k, n>> \in UNION {{<<k, n>> : n \in DOMAIN s.ls[k].got} : k \in rl} : s.ls[k].got[n].did = d}
+           \* with auto-accept the disposition is written while recv is still running: the delivery is complete but not yet returned
+           auto(d) == \E k \in rl : s.ls[k].autoAcc /\ \E n \in DOMAIN s.ls[k].inq : s.ls[k].inq[n].did = d /\ Eligible(s.ls[k].inq[n])
+                                     /\ f.state.k = "accepted" /\ (s.ls[k].rcv = 1 => ~f.settled)
+           okd(d) == \E kn \in find(d) : LET y == s.ls[kn[1]] g == y.got[kn[2]] IN
+                        /\ (IF y.autoAcc /\ g.app = "none" THEN f.state.k = "accepted" ELSE f.state.k = g.app)
+                        /\ (y.rcv = 1 => ~f.settled)
+       IN R(s, Chk("C02_RangeExact", hi - f.first <= 64 /\ \A d \in f.first..hi : find(d) # {} \/ auto(d), l, "")
+             + Chk("C02_OwnState", hi - f.first > 64 \/ \A d \in f.first..hi : find(d) = {} \/ okd(d), l, ""))
+
 H_EFrame(s, r, l) ==
   LET pre == EPre(s, r, l)
       s1 == [s EXCEPT !.eframes = @ + 1, !.lastE = r.t]
@@ -193,6 +250,7 @@ H_EFrame(s, r, l) ==
              [] r.perf = "detach" -> H_EDetach(s1, r, l)
              [] r.perf = "transfer" -> H_ETransfer(s1, r, l)
              [] r.perf = "flow" -> H_EFlow(s1, r, l)
+             [] r.perf = "disposition" -> H_EDisposition(s1, r, l)
              [] r.perf = "undecodable" -> R(s1, Fail("C06_Undecodable", l, ""))
              [] OTHER -> R(s1, 0)
       \* any frame on a channel whose session the EUT has ended (and not begun again)
@@ -201,7 +259,6 @@ H_EFrame(s, r, l) ==
   IN R(h.s, pre + h.f + chan)
 
 \* ---------------------------------------------------------------- peer frames
-Illegal(s) == [s EXCEPT !.illegal = TRUE]
 
 H_PBegin(s, r, l) ==
   LET f == r.f IN
@@ -285,6 +342,7 @@ H_PFrame(s, r, l) ==
          [] r.perf = "detach" -> H_PDetach(s1, r, l)
          [] r.perf = "flow" -> H_PFlow(s1, r, l)
          [] r.perf = "transfer" -> H_PTransfer(s1, r, l)
+         [] r.perf = "disposition" -> H_PDisposition(s1, r, l)
          [] OTHER -> R(s1, 0)
 
 H_PHeader(s, r, l) == R([s EXCEPT !.phdr = IF s.phdr = "none" THEN r.kind ELSE "twice"], 0)
@@ -299,7 +357,13 @@ H_ApiCall(s, r, l) ==
   ELSE IF r.op \in {"send", "send_batchable"} THEN
        LET k == LinkByName(s, r.lname, TRUE) IN
        IF k = 0 THEN R(s, 0) ELSE R(SetL(s, k, [s.ls[k] EXCEPT !.sendsIssued = @ + 1, !.touched = TRUE,
-                                                !.sendq = Append(@, [call |-> r.call, m |-> r.args.m, did |-> -1, presettled |-> FALSE, outcome |-> "none"])]), 0)
+                                                !.sendq = Append(@, [call |-> r.call, m |-> r.args.m, did |-> -1, presettled |-> FALSE, outcome |-> "none", done |-> FALSE])]), 0)
+  ELSE IF r.op = "dispose" THEN
+       LET k == LinkByName(s, r.lname, FALSE)
+           st == CASE r.args.state = "accept" -> "accepted" [] r.args.state = "reject" -> "rejected" [] r.args.state = "release" -> "released" [] OTHER -> "modified" IN
+       IF k = 0 THEN R(s, 0)
+       ELSE R(SetL(s, k, [s.ls[k] EXCEPT !.touched = TRUE,
+                            !.got = [n \in DOMAIN @ |-> IF \E j \in DOMAIN r.args.dids : r.args.dids[j] = @[n].did THEN [@[n] EXCEPT !.app = st] ELSE @[n]]]), 0)
   ELSE IF r.op = "set_credit" THEN
        LET k == LinkByName(s, r.lname, FALSE) IN
        IF k = 0 THEN R(s, 0) ELSE R(SetL(s, k, [s.ls[k] EXCEPT !.expectLc = r.args.n, !.touched = TRUE]), 0)
@@ -309,8 +373,6 @@ H_ApiCall(s, r, l) ==
        IF k = 0 THEN R(s, 0) ELSE R(SetL(s, k, [s.ls[k] EXCEPT !.touched = TRUE]), 0)
   ELSE R(s, 0)
 
-\* the first delivery of the queue that may be handed to the application: complete, not aborted, not contradictory
-Eligible(e) == e.complete /\ ~e.aborted /\ ~e.contra
 H_RecvRet(s, r, l) ==
   LET k == LinkByName(s, r.lname, FALSE) IN
   IF k = 0 THEN R(s, 0) ELSE
@@ -321,7 +383,8 @@ H_RecvRet(s, r, l) ==
   ELSE IF j = 0 THEN R(s, Fail("C10_NotBefore", l, "") + (IF \E n \in DOMAIN y.inq : y.inq[n].m = r.res.m /\ y.inq[n].contra THEN Fail("C10_Contradiction", l, "") ELSE 0)
                                 + (IF \E n \in DOMAIN y.inq : y.inq[n].m = r.res.m /\ y.inq[n].aborted THEN Fail("C10_Abort", l, "") ELSE 0))
   ELSE LET e == y.inq[j] IN
-       R(SetL(s, k, [y EXCEPT !.inq = SubSeq(@, j + 1, Len(@)), !.held = IF y.autoAcc THEN @ ELSE @ + 1, !.dcGot = @ + 1, !.accepted = @ + 1]),
+       R(SetL(s, k, [y EXCEPT !.inq = SubSeq(@, j + 1, Len(@)), !.held = IF y.autoAcc THEN @ ELSE @ + 1, !.dcGot = @ + 1, !.accepted = @ + 1,
+                         !.got = Append(@, [did |-> e.did, m |-> e.m, app |-> "none", presettled |-> e.presettled])]),
            Chk("C10_Exact", r.res.m = e.m /\ r.res.intact /\ e.next = e.total, l, "")
          + Chk("C11_Routing", r.res.m = e.m \/ ~\E k2 \in DOMAIN s.ls : k2 # k /\ \E n \in DOMAIN s.ls[k2].inq : s.ls[k2].inq[n].m = r.res.m, l, "")
          \* deliveries handed to the application never outnumber the credit issued so far (largest limit stated in a flow)
@@ -346,6 +409,15 @@ H_ApiRet(s, r, l) ==
   ELSE IF r.op = "dispose" /\ r.res.ok THEN
        LET k == LinkByName(s, r.lname, FALSE) IN
        IF k = 0 THEN R(s, 0) ELSE R(SetL(s, k, [s.ls[k] EXCEPT !.held = Max(0, @ - 1)]), 0)
+  ELSE IF r.op \in {"send", "await_outcome"} /\ r.res.ok THEN
+       LET k == LinkByName(s, r.lname, TRUE)
+           c == IF r.op = "send" THEN r.call ELSE r.of IN
+       IF k = 0 THEN R(s, 0) ELSE
+       LET qi == FirstIdx(s.ls[k].sendq, LAMBDA q : q.call = c) IN
+       IF qi = 0 THEN R(s, 0) ELSE
+       LET q == s.ls[k].sendq[qi] IN
+       R(s, Chk("C02_OwnOutcome", IF q.presettled THEN r.res.outcome = "accepted" ELSE (q.outcome # "none" /\ r.res.outcome = q.outcome), l,
+                IF q.presettled THEN "presettled" ELSE IF q.outcome = "none" THEN "early" ELSE "wrong"))
   ELSE IF r.op \in {"send", "send_batchable"} /\ ~r.res.ok THEN
        LET k == LinkByName(s, r.lname, TRUE) IN
        IF k = 0 \/ s.ls[k].sendsIssued <= s.ls[k].delsDone THEN R(s, 0) ELSE R(SetL(s, k, [s.ls[k] EXCEPT !.sendsIssued = @ - 1]), 0)
@@ -384,6 +456,8 @@ H_Quiesce(s, r, l) ==
        + Chk("C13_DetachReply_Q", \A k \in DOMAIN s.ls : ~(s.ls[k].pDet /\ s.ls[k].pDetFirst /\ s.ls[k].touched /\ LinkLiveE(s.ls[k]) /\ ConnUp(s)
                                                            /\ SessByE(s, s.ls[k].ech) > 0 /\ LiveE(s.ss[SessByE(s, s.ls[k].ech)]) /\ ~s.ss[SessByE(s, s.ls[k].ech)].pEnded), l, "")
        + Chk("C08_Drain_Q", \A k \in DOMAIN s.ls : ~(up /\ s.ls[k].eutSender /\ s.ls[k].drainOwed /\ LinkLiveE(s.ls[k]) /\ ~s.ls[k].pDet), l, "")
+       + Chk("C02_Echo_Q", \A k \in DOMAIN s.ls : ~(ConnUp(s) /\ s.ls[k].eutSender /\ s.ls[k].oblEcho # {} /\ LinkLiveE(s.ls[k]) /\ ~s.ls[k].pDet
+                                                     /\ SessByE(s, s.ls[k].ech) > 0 /\ LiveE(s.ss[SessByE(s, s.ls[k].ech)]) /\ ~s.ss[SessByE(s, s.ls[k].ech)].pEnded), l, "")
        + Chk("C08_Echo_Q", \A k \in DOMAIN s.ls : ~(up /\ s.ls[k].eutSender /\ s.ls[k].echoOwed /\ LinkLiveE(s.ls[k]) /\ ~s.ls[k].pDet), l, "")
        + Chk("C17_Heartbeat", ~(s.pidle > 0 /\ ConnUp(s)) \/ r.t - s.lastE <= s.pidle, l, "quiesce")
        \* automatic credit: with nothing held back by the application the sender must have credit to continue
